@@ -211,14 +211,13 @@ def validatePrototype (p : Prototype) : Bool :=
    | some r => p.has .timeStamp && r.dt == .integer 0 1
    | none => true)
 
-/-- `get_max_packet_points`; all arithmetic is `usize`: underflow and division by zero panic -/
-def maxPacketPoints (p : Prototype) : Outcome Nat :=
+/-- `get_max_packet_points`: points of `pointBits` bits that fit a 64 KiB packet besides headers,
+    incomplete bytes and a safety margin; zero-width points need no space at all -/
+def maxPacketPoints (p : Prototype) : Nat :=
   let pointBits := (p.map (fun r => r.dt.bitSize)).foldl (· + ·) 0
   let headers := 6 + p.length * 2
-  let sub := headers + p.length + 500
-  if sub > 65535 then .panic "pc_writer: u16_max - headers_size - max_incomplete_bytes - SAFETY_MARGIN underflows"
-  else if pointBits = 0 then .panic "pc_writer: division by zero point size"
-  else .ok (((65535 - sub) * 8) / pointBits)
+  if pointBits = 0 then 65535
+  else ((65535 - (headers + p.length + 500)) * 8) / pointBits
 
 /-! ### XML of a prototype entry -/
 
